@@ -450,6 +450,9 @@ class Model:
                 if obj.size > 1:
                     raise ValueError('Incorrect function dimension.')
 
+        if isinstance(obj, Convex) and obj.sign == -1:
+            raise ValueError('Nonconvex objective function.')
+
         self.obj = obj
         self.sign = 1
         self.pupdate = True
@@ -480,6 +483,9 @@ class Model:
             else:
                 if obj.size > 1:
                     raise ValueError('Incorrect function dimension.')
+
+        if isinstance(obj, Convex) and obj.sign == 1:
+            raise ValueError('Nonconvex objective function.')
 
         self.obj = obj
         self.sign = - 1
